@@ -3558,6 +3558,8 @@ class DecVar(Vars):
             raise SyntaxError('Adaptation must be defined before the model is formulated.')
 
         if isinstance(scens, Scen):
+            if scens.ambset.model is not self.dro_model:
+                raise ValueError('Models mismatch.')
             events = scens.series
         else:
             events = scens
